@@ -522,10 +522,15 @@ def c14_script(seed, proto):
 
 def c15_script(seed, proto):
     rng = random.Random(seed)
-    inst = installation(proto, rng, n_acs=rng.randrange(1, 3), n_zones=rng.randrange(1, 4))
+    na, nz = rng.randrange(1, 3), rng.randrange(1, 4)
+    if proto == "at5" and seed % 9 == 0:
+        nz = 0        # a console without zones: its handshake ends on a path of its own (echoed requests)
+    inst = installation(proto, rng, n_acs=na, n_zones=nz)
     b = ClientBuilder(proto, rng)
     b.preamble()
     stage = rng.randrange(0, 15)
+    if stage == 14 and not inst["zones"]:
+        stage = 13
     if stage == 14:
         return c15_stale_handler(seed, proto, rng, inst)
     b.call("airtouch", "init")
